@@ -75,6 +75,19 @@ func newFixture() *fixture {
 type ex struct {
 	fx  *fixture
 	tmp string
+	// several responses in flight from ONE modifier instance (ops hold / drain)
+	bodyMods   map[string]*body.Modifier
+	staticMod  *static.Modifier
+	staticFile map[string]string // content -> file name under tmp
+	held       []heldRes
+}
+
+type heldRes struct {
+	res     *http.Response
+	err     error
+	content []byte
+	hdr     string
+	hasHdr  bool
 }
 
 func (P) NewExec() core.Exec { return &ex{} }
@@ -304,6 +317,91 @@ func (e *ex) Do(op string) core.Result {
 		r.Impl = obs
 		core.Count("outcome:" + strings.Fields(obs)[0])
 		return r
+	case "hold":
+		// hold range|srange <content> <hdr>: the modifier instance of this case answers, nobody reads the body yet
+		content, _ := core.Unhex(t[2])
+		hasHdr := t[3] != "none"
+		var hdr string
+		if hasHdr {
+			b, _ := core.Unhex(t[3])
+			hdr = string(b)
+		}
+		name := "f.bin"
+		if t[1] == "srange" {
+			if e.tmp == "" {
+				e.tmp, _ = os.MkdirTemp("/var/tmp", "verif-c20s-")
+			}
+			if e.staticFile == nil {
+				e.staticFile = map[string]string{}
+				e.staticMod = static.NewModifier(e.tmp)
+			}
+			n, ok := e.staticFile[t[2]]
+			if !ok {
+				n = fmt.Sprintf("h%d.bin", len(e.staticFile))
+				e.staticFile[t[2]] = n
+				os.WriteFile(filepath.Join(e.tmp, n), content, 0o644)
+			}
+			name = n
+		}
+		req, _ := http.NewRequest("GET", "http://example.com/"+name, nil)
+		if hasHdr {
+			req.Header["Range"] = []string{hdr}
+		}
+		res := proxyutil.NewResponse(200, strings.NewReader("original"), req)
+		var err error
+		if t[1] == "range" {
+			if e.bodyMods == nil {
+				e.bodyMods = map[string]*body.Modifier{}
+			}
+			m := e.bodyMods[t[2]]
+			if m == nil {
+				m = body.NewModifier(content, "text/plain")
+				e.bodyMods[t[2]] = m
+			}
+			err = m.ModifyResponse(res)
+		} else {
+			err = e.staticMod.ModifyResponse(res)
+		}
+		e.held = append(e.held, heldRes{res, err, content, hdr, hasHdr})
+		core.Count("hold:" + t[1])
+		return core.Result{Impl: "held"}
+	case "drain":
+		// drain <i,j,k>: read the held bodies in this order; each must be what it would be alone
+		if len(e.held) == 0 {
+			return core.Result{Impl: "-"}
+		}
+		out := make([]string, len(e.held))
+		var first core.Result
+		seen := map[int]bool{}
+		var order []int
+		for _, x := range strings.Split(t[1], ",") {
+			if i, err := strconv.Atoi(x); err == nil && i >= 0 && i < len(e.held) && !seen[i] {
+				order = append(order, i)
+				seen[i] = true
+			}
+		}
+		for i := range e.held {
+			if !seen[i] {
+				order = append(order, i)
+			}
+		}
+		for _, i := range order {
+			h := e.held[i]
+			obs, parts, r := observe(h.res, h.err, h.content)
+			if r.Fail == "" {
+				r = oracle(obs, parts, h.content, h.hdr, h.hasHdr)
+			} else {
+				obs = "inconsistent"
+			}
+			if r.Fail != "" && first.Fail == "" {
+				first = core.Result{Fail: fmt.Sprintf("response %d of %d held by one modifier instance, read in order %v: %s", i, len(e.held), order, r.Fail), Sig: r.Sig}
+			}
+			out[i] = obs
+		}
+		core.Count(fmt.Sprintf("drain:%d", len(e.held)))
+		e.held = nil
+		first.Impl = strings.Join(out, " | ")
+		return first
 	case "path":
 		if e.fx == nil {
 			e.fx = newFixture()
@@ -541,6 +639,63 @@ func (P) Gen(r *core.Rand, tier string, emit func([]string)) {
 			}
 			ops = append(ops, opn+" "+core.Hex(c)+" "+h)
 		}
+		emit(ops)
+	}
+	// several responses in flight from one modifier instance, bodies read later in any order
+	nHold := 40
+	if tier == "thorough" {
+		nHold = 600
+	}
+	asciiRange := func(n int) string {
+		for {
+			h := genRange(r, n)
+			ok := true
+			for i := 0; i < len(h); i++ {
+				if h[i] >= 0x80 {
+					ok = false
+				}
+			}
+			if ok {
+				return h
+			}
+		}
+	}
+	for i := 0; i < nHold; i++ {
+		var ops []string
+		contents := [][]byte{genContent(r, tier)}
+		if r.Chance(1, 2) {
+			contents = append(contents, genContent(r, tier))
+		}
+		k := r.Range(2, 5)
+		opn := "range"
+		if r.Chance(1, 3) {
+			opn = "srange"
+		}
+		for j := 0; j < k; j++ {
+			c := contents[r.Intn(len(contents))]
+			h := "none"
+			if !r.Chance(1, 10) {
+				if r.Chance(2, 3) && len(c) > 2 { // mostly multi-range: the responses that are assembled in a scratch buffer
+					h = core.HexS(fmt.Sprintf("bytes=0-%d,%d-%d", r.Intn(len(c)), r.Intn(len(c)), len(c)+r.Intn(3)))
+				} else {
+					h = core.HexS(asciiRange(len(c)))
+				}
+			}
+			ops = append(ops, "hold "+opn+" "+core.Hex(c)+" "+h)
+		}
+		perm := make([]int, k)
+		for x := range perm {
+			perm[x] = x
+		}
+		for x := k - 1; x > 0; x-- {
+			y := r.Intn(x + 1)
+			perm[x], perm[y] = perm[y], perm[x]
+		}
+		var ps []string
+		for _, x := range perm {
+			ps = append(ps, strconv.Itoa(x))
+		}
+		ops = append(ops, "drain "+strings.Join(ps, ","))
 		emit(ops)
 	}
 	for i := 0; i < nPath; i++ {
